@@ -355,14 +355,22 @@ def xffStep (h : Hdr) (ip : Option Str) : Hdr :=
     | some (p :: ps) => h.set kXFF (joinWith kCommaSpace (p :: ps) ++ kCommaSpace ++ ip)
     | none => h.set kXFF ip
 
-/-- Headers handed to `transport.RoundTrip` by `ReverseProxy.ServeHTTP`, from the headers the proxy handler received. -/
+/-- `removeConnectionHeaders(outreq.Header)` then `for _, h := range hopHeaders { outreq.Header.Del(h) }` -/
+def stripHopByHop (out : Hdr) : Hdr := removeHop (removeConnectionHeaders out)
+
+/-- `if HeaderValuesContainsToken(req.Header["Te"], "trailers") { outreq.Header.Set("Te", "trailers") }`
+    (`h` is the header map of the incoming request, `out` the one being built) -/
+def teStep (h out : Hdr) : Hdr :=
+  if headerValuesContainsToken (h.values kTe) kTrailers then out.set kTe kTrailers else out
+
+/-- `if reqUpType != "" { Set("Connection", "Upgrade"); Set("Upgrade", reqUpType) }` -/
+def upgradeStep (reqUpType : Str) (out : Hdr) : Hdr :=
+  if reqUpType ≠ [] then (out.set kConnection kUpgrade).set kUpgrade reqUpType else out
+
+/-- Headers handed to `transport.RoundTrip` by `ReverseProxy.ServeHTTP`, from the headers the proxy handler received:
+    director, `upgradeType`, strip, `Te` rule, upgrade re-add, `X-Forwarded-For` — in the order of the Go code. -/
 def outHeaders (h : Hdr) (ip : Option Str) : Hdr :=
-  let out := director h
-  let reqUpType := upgradeType out
-  let out := removeHop (removeConnectionHeaders out)
-  let out := if headerValuesContainsToken (h.values kTe) kTrailers then out.set kTe kTrailers else out
-  let out := if reqUpType ≠ [] then (out.set kConnection kUpgrade).set kUpgrade reqUpType else out
-  xffStep out ip
+  xffStep (upgradeStep (upgradeType (director h)) (teStep h (stripHopByHop (director h)))) ip
 
 /-- `copyHeader(dst, src)` -/
 def copyHeader (dst src : Hdr) : Hdr := src.foldl (fun d e => e.2.foldl (fun d v => d.add e.1 v) d) dst
@@ -480,6 +488,7 @@ deriving DecidableEq, Repr
 
 /-- what decides the fate of a request -/
 structure Scenario where
+  labelsUTF8 : Bool        -- the metric labels taken from the request (its resource/subresource) are valid UTF-8
   hostIsIP : Bool          -- `net.ParseIP(hostname) != nil`
   clusterKnown : Bool      -- `clusterManager.Get(hostname)`
   denyAll : Bool           -- feature gate DenyAllRequests
@@ -496,6 +505,7 @@ inductive Outcome
   | terminated (a : Answer)             -- answered by the gateway with a Status
   | plainError (code : Nat)             -- answered by the gateway with `responsewriters.InternalError` (text/plain)
   | forward                             -- handed to the proxy handler
+  | aborted                             -- a panic tears the connection down: no answer at all
 deriving DecidableEq, Repr
 
 /-- `dispatcher.ServeHTTP` up to the proxy call -/
@@ -527,9 +537,15 @@ def withUpstreamInfo (s : Scenario) (next : Outcome) : Outcome :=
   else if s.denyAll then .terminated (terminateWithError (newTooManyRequests 0))
   else next
 
+/-- `WithPreProcessingMetrics` (on the way in) and the deferred `recordMetrics` of `WithTerminationMetrics` (on the way
+    out of every answer ≥ 400) put the request's resource — decoded path segments — into a Prometheus label;
+    client_golang panics on a label value that is not valid UTF-8, `HandleCrash` re-panics and net/http drops the
+    connection without an answer. -/
+def withMetrics (s : Scenario) (next : Outcome) : Outcome := if !s.labelsUTF8 then .aborted else next
+
 /-- the chain in the order of `buildProxyHandlerChainFunc` (outermost first) -/
 def serve (s : Scenario) : Outcome :=
-  withUpstreamInfo s (withAuthentication s (withImpersonation s (withDispatcher s)))
+  withMetrics s (withUpstreamInfo s (withAuthentication s (withImpersonation s (withDispatcher s))))
 
 /-- position of a filter in the regenerated application order (innermost = 0) -/
 def chainIdx (name : Str) (chain : List Str) : Option Nat :=
